@@ -259,3 +259,7 @@ pub assume_specification [std::string::String::from_utf8_lossy] (v: &[u8]) -> (r
 #[verifier::external_body]
 pub broadcast proof fn axiom_to_string_cow(t: &std::borrow::Cow<'_, str>, s: String)
     ensures #[trigger] vstd::string::to_string_from_display_ensures::<std::borrow::Cow<'_, str>>(t, s) <==> s@ == cow_text(*t) {}
+
+// http::Uri::query (same contract as in unit authz): the text after the first '?', if any
+pub assume_specification [http::Uri::query] (u: &http::Uri) -> (r: Option<&str>)
+    ensures match r { Some(q) => uri_query(*u) == Some(q@), None => uri_query(*u) is None };
